@@ -130,6 +130,11 @@ def ops_palette():
     ops.append(('set_custom_then_mutate_arg', 1))
     for i in (0, 1, 3, 9, 15):
         ops.append(('set_invalid', i))
+    # a table that keeps every entry of the current one and ADDS a key for an atom type served by '?' so far
+    ops.append(('set_superdict', 'Xe'))
+    ops.append(('set_superdict', 'Al'))
+    ops.append(('set_superdict', 'Fe+2'))
+    ops.append(('set_superdict', 'Si'))
     ops.append(('set_subdict', 'O'))
     ops.append(('set_subdict', 'N'))
     ops.append(('get_and_mutate', None))
@@ -162,6 +167,20 @@ def apply_op(op, model, log):
         t['?'] = 11
         t['Zr'] = 0
         del t['N']
+    elif kind == 'set_superdict':
+        t = sf.get_semantic_constraints()
+        if arg not in t:
+            _touch()
+            for p in PROBES_DEC[10:]:
+                try:
+                    sf.decoder(p)
+                except sf.DecoderError:
+                    pass
+            t[arg] = (t.get('?', 0) + 2) % 5 + 1
+            sf.set_semantic_constraints(t)
+            m = dict(model.table)
+            m[arg] = t[arg]
+            model.set(m)
     elif kind == 'set_subdict':
         t = sf.get_semantic_constraints()
         t.pop(arg, None)
